@@ -18,6 +18,9 @@
 //	suites = hex ids joined by "."   (Config.CipherSuites)
 //	fault  = "ok" | "sf" (man in the middle damages the server's CCS+Finished flight)
 //	              | "cf" (… the client's CCS+Finished flight)
+//	              | "e"<k> (no network fault: while the handshake is in flight — after the client
+//	                has sent its ClientHello — k unrelated sessions are Put into the client's
+//	                cache, as concurrent connections sharing the cache would do; C11 only)
 package resume
 
 import (
@@ -219,10 +222,11 @@ type Ops[S comparable] struct {
 	// MakePeer is Make plus the recorded certificates of server identity `server`.
 	MakePeer func(id []byte, suite uint16, ms []byte, server int) S
 	Clone    func(S) S
-	// Handshake runs one real connection; ccache/scache may be nil (no cache configured).
+	// Handshake runs one real connection; ccache/scache may be nil (no cache configured);
+	// mid (may be nil) is called once, when the client has handed its first flight to the transport.
 	// DstKey is the remote-address string of destination d (the client's cache key).
 	DstKey    func(d int) string
-	Handshake func(dst int, server int, cs, ss []uint16, ccache, scache Cache[S], fault string, seed uint64) HS
+	Handshake func(dst int, server int, cs, ss []uint16, ccache, scache Cache[S], fault string, seed uint64, mid func()) HS
 	// Identity maps a peer certificate to "A" (server 0), "B" (server 1) or "?".
 	Identity func(der []byte) string
 }
@@ -357,7 +361,17 @@ func (r *Runner[S]) Step(i int, c Conn) Out {
 		}
 	}
 	logStart := len(r.Client.Log)
-	h := r.ops.Handshake(c.Dst, c.Server, c.CS, c.SS, r.Client, r.srv[c.Server], c.Fault, r.rnd.U64())
+	var mid func()
+	if strings.HasPrefix(c.Fault, "e") {
+		k, _ := strconv.Atoi(c.Fault[1:])
+		mid = func() {
+			for n := 0; n < k; n++ {
+				r.junk++
+				r.Client.Put(fmt.Sprintf("junk%d", r.junk), r.ops.Make(r.rnd.Bytes(32), suite0, r.rnd.Bytes(48)))
+			}
+		}
+	}
+	h := r.ops.Handshake(c.Dst, c.Server, c.CS, c.SS, r.Client, r.srv[c.Server], c.Fault, r.rnd.U64(), mid)
 	o := Out{COk: h.CErr == nil, SOk: h.SErr == nil, CRes: "-", SRes: "-", Len: "-", Suite: "-", Peer: "-", MS: "-", Fresh: "-"}
 	o.Off = r.name(r.ids, "n", h.Off)
 	if h.SawServerHello {
@@ -403,7 +417,7 @@ func (r *Runner[S]) Step(i int, c Conn) Out {
 		res, ok := ctlMemo[key]
 		ctlMu.Unlock()
 		if !ok {
-			ctl := r.ops.Handshake(c.Dst, c.Server, c.CS, c.SS, nil, nil, "ok", r.rnd.U64())
+			ctl := r.ops.Handshake(c.Dst, c.Server, c.CS, c.SS, nil, nil, "ok", r.rnd.U64(), nil)
 			if ctl.CErr == nil && ctl.SErr == nil {
 				res = fmt.Sprintf("ok:%04x", ctl.Suite)
 			} else {
